@@ -154,6 +154,13 @@ def run(tier="quick", seed=0):
     empty = {"mode": "Target", "thrown": 20, "obst": 600.0, "ra": 0.0, "dec": 1.5}
     for o, rd in ((True, True), (True, False), (False, True)):
         jobs.append({"spec": dict(empty, optical=o, radio=rd), "seed": seed, "sched": "sync", "base": ("Target", "mono", "none", "empty")})
+    # survivor counts at the bottom of the range: a single throw at a narrow annulus leaves NO or exactly ONE surviving trajectory
+    # depending on the seed (one row, every enabled stage's columns and the four integral keywords of each channel - the statistical
+    # uncertainty of a one-event sum is undefined, the keyword is there all the same), a few throws leave one to three
+    for sd in range(10 if thorough else 6):
+        for nthr in (1, 3):
+            jobs.append({"spec": {"mode": "Diffuse", "thrown": nthr, "limb": float(np.radians(0.2)), "optical": True, "radio": True},
+                         "seed": seed + 300 + sd, "sched": "sync", "base": ("Diffuse", "mono", "none", "tiny-%d" % nthr)})
     if thorough:
         for b in QUICK_BASES[:4]:
             jobs.append({"cli": True, "spec": spec_of(b, True, True, thrown), "seed": seed + 21, "base": b})
